@@ -10,7 +10,7 @@ from lib.wishbone import WBMaster, WBMemSlave, CTI_INCR, CTI_END
 from lib.portcase import slave_sched
 
 ID = "C10"
-REQUIRED_CLASSES = ['abort', 'rw_same_wide_word', 'burst_crosses_native_word', 'n2w']      # classes that must occur in every run (else harness error: vacuous generator)
+REQUIRED_CLASSES = ['abort', 'rw_same_wide_word', 'burst_crosses_native_word', 'n2w', 'direction_change_inside_announced_burst']      # classes that must occur in every run (else harness error: vacuous generator)
 LEVEL = "exploration"
 RULE = ("case = (LiteDRAMWishbone2Native for bus:port width ratios 1/8..8 and base addresses, or LiteDRAMNative2Wishbone word/byte addressed) x (Wishbone master: classic cycles "
         "and incrementing bursts, any sel, back-to-back or with idle cycles, aborts = cyc and stb dropped at a generated cycle before the acknowledge) x (realistic native slave "
@@ -190,6 +190,8 @@ def classify_w2n(cfg, stim):
             cl.add("rw_same_wide_word")
         if a.get("cti") == CTI_INCR and (a["adr"] * bus_b) // wide != (b["adr"] * bus_b) // wide:
             cl.add("burst_crosses_native_word")
+        if a.get("cti") == CTI_INCR and a["we"] != b["we"] and b.get("gap", 0) == 0:
+            cl.add("direction_change_inside_announced_burst")
     return cl
 
 
@@ -206,9 +208,20 @@ def w2n_stim(draw, cfg, max_acc):
     while len(ops) < n:
         reg = regions[draw(st.integers(0, len(regions) - 1))]
         first = (base + reg) // bus_b + draw(st.integers(0, max(0, 2 * wide // bus_b - 1)))
-        kind = draw(st.sampled_from(["single", "single", "burst", "burst", "pair"]))
+        kind = draw(st.sampled_from(["single", "single", "burst", "burst", "pair", "irregular"]))
         we = draw(st.integers(0, 1))
-        blen = 1 if kind == "single" else draw(st.integers(2, 8)) if kind == "burst" else 2
+        blen = 1 if kind == "single" else draw(st.integers(2, 8)) if kind in ("burst", "irregular") else 2
+        if kind == "irregular":
+            # any sequence of (we, CTI) inside one held CYC: a master that announces an incrementing burst (CTI=2) and then
+            # changes direction or address ("all access sequences (addresses, sel, we, CTI)"); this is what the merge buffer's
+            # drain-before-read and the read cache's invalidate-on-write exist for
+            for i in range(blen):
+                op = dict(we=draw(st.integers(0, 1)), adr=first + draw(st.integers(0, max(1, wide // bus_b))) , sel=full if draw(st.integers(0, 2)) else draw(st.integers(1, full)),
+                          gap=draw(st.sampled_from([0, 0, 1, 3])) if i == 0 else 0, cti=draw(st.sampled_from([CTI_INCR, CTI_INCR, CTI_END, 0])), hold_cyc=True)
+                if op["we"]:
+                    op["data"] = draw(st.integers(0, (1 << cfg["bus_dw"]) - 1))
+                ops.append(op)
+            continue
         for i in range(blen):
             op = dict(we=we if kind != "pair" else (1 if i == 0 else 0), adr=first + (i if kind == "burst" else 0),
                       sel=full if draw(st.integers(0, 2)) else draw(st.integers(1, full)), gap=draw(st.sampled_from([0, 0, 1, 2, 5, 12])) if i == 0 else 0)
